@@ -415,7 +415,13 @@ class tree:
                     pkg_restrict.add(x.restriction)
 
         for e, s in ((pkg_exact, pkg_restrict), (cat_exact, cat_restrict)):
-            l = [x for x in s if isinstance(x, values.StrExactMatch) and not x.negate]
+            l = [
+                x
+                for x in s
+                if isinstance(x, values.StrExactMatch)
+                and not x.negate
+                and x.case_sensitive
+            ]
             s.difference_update(l)
             e.update(x.exact for x in l)
         del l
